@@ -8,6 +8,7 @@ import (
 	"crypto/x509/pkix"
 	"encoding/pem"
 	"fmt"
+	abci "github.com/tendermint/tendermint/abci/types"
 	"math/big"
 	"sort"
 	"time"
@@ -231,6 +232,7 @@ func (cs *checkerSet) c17Tx(c *TxCtx) *core.Violation {
 		}
 		named := x.Subject.CommonName == m.Owner
 		_, exists := mdl.m[ck(m.Owner, x.SerialNumber)]
+		cs.c17Touched = append(cs.c17Touched, [2]string{m.Owner, x.SerialNumber.String()})
 		if c.OK {
 			if !named {
 				return r.Flag("C17/registered-for-other-account", "certificate naming %s was registered by %s", x.Subject.CommonName, m.Owner)
@@ -260,6 +262,7 @@ func (cs *checkerSet) c17Tx(c *TxCtx) *core.Violation {
 			break
 		}
 		e := mdl.m[ck(m.ID.Owner, serial)]
+		cs.c17Touched = append(cs.c17Touched, [2]string{m.ID.Owner, serial.String()})
 		if c.OK {
 			if e == nil {
 				return r.Flag("C17/revoked-unknown", "revocation of unregistered certificate %s/%s succeeded", m.ID.Owner, m.ID.Serial)
@@ -315,12 +318,40 @@ func (cs *checkerSet) c17State(w *World, s *Snap, why string) *core.Violation {
 }
 
 // c17Query issues one listing with drawn filter and paging and compares it with the model.
-func (cs *checkerSet) c17Query(w *World) (viol *core.Violation) {
+func (cs *checkerSet) c17Query(w *World) *core.Violation { return cs.c17QueryVia(w, false, "", "") }
+
+// c17QueryVia: viaABCI=false asks a querier built over the store of the block in progress (uncommitted
+// state included); viaABCI=true goes through the application's own query router on the committed state
+// (ABCI Query, the path a client's gRPC request takes) - only meaningful right after a commit.  With
+// owner and serial given the query is the point lookup of that pair.
+func (cs *checkerSet) c17QueryVia(w *World, viaABCI bool, owner, serial string) (viol *core.Violation) {
 	r := cs.r
 	rep := w.Primary()
 	q := ckeeper.NewKeeper(w.Cdc, rep.App.GetKey("cert")).Querier()
 	ctx := w.Ctx(rep)
+	ask := func(req *ctypes.QueryCertificatesRequest) (*ctypes.QueryCertificatesResponse, error) {
+		if !viaABCI {
+			return q.Certificates(sdk.WrapSDKContext(ctx), req)
+		}
+		bz, err := req.Marshal()
+		if err != nil {
+			panic(err)
+		}
+		res := rep.App.Query(abci.RequestQuery{Path: "/akash.cert.v1beta1.Query/Certificates", Data: bz})
+		if res.Code != 0 {
+			return nil, fmt.Errorf("query failed: %s/%d %s", res.Codespace, res.Code, res.Log)
+		}
+		out := &ctypes.QueryCertificatesResponse{}
+		if err := out.Unmarshal(res.Value); err != nil {
+			return nil, err
+		}
+		r.Count("probe:cert-queries-through-the-application")
+		return out, nil
+	}
 	var f ctypes.CertificateFilter
+	if owner != "" {
+		f.Owner, f.Serial = owner, serial
+	}
 	switch r.Choose(3, "q.state") {
 	case 1:
 		f.State = "valid"
@@ -328,6 +359,9 @@ func (cs *checkerSet) c17Query(w *World) (viol *core.Violation) {
 		f.State = "revoked"
 	}
 	ownerMode := r.Choose(3, "q.owner")
+	if owner != "" {
+		ownerMode = 0
+	}
 	if ownerMode > 0 {
 		f.Owner = w.Actors[r.Choose(len(w.Actors), "q.owner.who")].Bech
 		if ownerMode == 2 {
@@ -362,6 +396,9 @@ func (cs *checkerSet) c17Query(w *World) (viol *core.Violation) {
 	}
 	useOffset := r.Bool(40, "q.offset")
 	desc := fmt.Sprintf("filter{owner=%s serial=%q state=%q} limit=%d offset-paging=%v", nameOf(w, f.Owner), f.Serial, f.State, limit, useOffset)
+	if viaABCI {
+		desc += " (through the application's query router, committed state)"
+	}
 	var got []ctypes.CertificateResponse
 	defer func() {
 		if p := recover(); p != nil {
@@ -377,7 +414,7 @@ func (cs *checkerSet) c17Query(w *World) (viol *core.Violation) {
 		} else {
 			req.Pagination.Key = next
 		}
-		res, err := q.Certificates(sdk.WrapSDKContext(ctx), req)
+		res, err := ask(req)
 		r.Count("probe:cert-list-queries")
 		if err != nil {
 			return r.Flag("C17/listing-failed", "listing %s failed: %v", desc, err)
